@@ -20,6 +20,39 @@ pub trait IndInst: Send + Sync {
 	fn as_dyn(&self) -> Box<dyn IndicatorInstanceDyn<Candle>>;
 	fn into_fn_calls(&self, cs: &[Candle]) -> Vec<IndicatorResult>;
 	fn config_json(&self) -> Result<String, String>;
+	/// the same candles carried by a user-defined OHLCV type that overrides provided methods (tp, hl2, ...):
+	/// (results of `over` on a clone, results of `next` one by one on another clone, results of `into_fn`)
+	fn custom_type_runs(&self, cs: &[Candle]) -> (Vec<IndicatorResult>, Vec<IndicatorResult>);
+}
+
+/// A candle type of a user: the same five fields, but its own idea of the derived prices
+#[derive(Clone, Copy, Debug)]
+pub struct OddCandle(pub Candle);
+impl yata::core::OHLCV for OddCandle {
+	fn open(&self) -> yata::core::ValueType {
+		self.0.open
+	}
+	fn high(&self) -> yata::core::ValueType {
+		self.0.high
+	}
+	fn low(&self) -> yata::core::ValueType {
+		self.0.low
+	}
+	fn close(&self) -> yata::core::ValueType {
+		self.0.close
+	}
+	fn volume(&self) -> yata::core::ValueType {
+		self.0.volume
+	}
+	fn tp(&self) -> yata::core::ValueType {
+		self.0.close * 2.0
+	}
+	fn hl2(&self) -> yata::core::ValueType {
+		self.0.open
+	}
+	fn clv(&self) -> yata::core::ValueType {
+		0.25
+	}
 }
 impl Clone for Box<dyn IndInst> {
 	fn clone(&self) -> Self {
@@ -92,6 +125,14 @@ where
 	}
 	fn config_json(&self) -> Result<String, String> {
 		serde_json::to_string(self.0.config()).map_err(|e| e.to_string())
+	}
+	fn custom_type_runs(&self, cs: &[Candle]) -> (Vec<IndicatorResult>, Vec<IndicatorResult>) {
+		let odd: Vec<OddCandle> = cs.iter().map(|c| OddCandle(*c)).collect();
+		let mut a = self.0.clone();
+		let via_over = IndicatorInstance::over(&mut a, &odd);
+		let mut b = self.0.clone();
+		let via_next = odd.iter().map(|c| IndicatorInstance::next(&mut b, c)).collect();
+		(via_over, via_next)
 	}
 }
 
